@@ -669,6 +669,23 @@ func (e *SpecEnv) evalCall(x *SCall) Val {
 			}
 			k = e.coerce(k, mt.Key())
 			return Val{T: boolT, S: fmt.Sprintf("(and (not (= %s 0)) (select (select %s %s) %s))", m.S, e.st.get(c.so.heapMapDom(mt.Key(), mt.Elem())), m.S, c.termOf(k))}
+		case "be64", "be32", "le64", "le32":
+			// the standard library decoders, as the same pure functions the code calls
+			full := map[string]string{"be64": "(encoding/binary.bigEndian).Uint64", "be32": "(encoding/binary.bigEndian).Uint32",
+				"le64": "(encoding/binary.littleEndian).Uint64", "le32": "(encoding/binary.littleEndian).Uint32"}[id.Name]
+			var fn *ssa.Function
+			for f := range ssautilAllFunctions(c.eng.prog) {
+				if f != nil && f.String() == full {
+					fn = f
+					break
+				}
+			}
+			if fn == nil {
+				e.fail("%s: %s is not part of the loaded program", id.Name, full)
+			}
+			arg := e.eval(x.Args[0])
+			recv := Val{T: fn.Params[0].Type(), S: c.so.zero(fn.Params[0].Type())}
+			return c.pureApp(fn, []Val{recv, arg}, fn.Signature.Results().At(0).Type(), e.st)
 		case "effects":
 			return Val{T: types.Typ[types.Int], S: e.st.get(HeapKey{Name: "G_effects", Sort: "Int"})}
 		case "typeis": // typeis(ifaceValue, T)
@@ -911,7 +928,7 @@ func (e *SpecEnv) callPure(fn *ssa.Function, args []Val) Val {
 	}
 	name := fullName(fn)
 	if con := c.eng.contractFor(fn); con != nil && con.Pure {
-		return c.pureApp(fn, args, t)
+		return c.pureApp(fn, args, t, e.st)
 	}
 	if h, ok := builtinModels[name]; ok && h.pure != nil {
 		return h.pure(e, args, t)
